@@ -12,6 +12,7 @@
 (*                          of the exception message                       *)
 (*   ran, rt   contexts of the values that left the pipeline; rtx = they   *)
 (*             were recorded (pipelines with two Caches are not run)       *)
+(*   stable  every observation was the same again after the run            *)
 (*   only  0 = check everything; i > 0 = only element i; Len(els)+1 =    *)
 (*         only the run-time part (used to localise a rejection)           *)
 (* The freedom for bare accumulator branches is existential: a record is   *)
@@ -21,10 +22,6 @@ EXTENDS StaticSem, Json, IOUtils
 
 Trace == JsonDeserialize(IOEnv.TRACE_FILE)
 VARIABLE i
-
-FieldKeys(E, n) ==
-  UNION {UNION {Range(E[j].v.toks[q].p) : q \in {q2 \in 1..Len(E[j].v.toks) : E[j].v.toks[q2].f}} :
-         j \in {j2 \in Below(E, n) : E[j2].k = "set"}}
 
 ElemOk(E, pol, n, in, o) ==
   CASE E[n].k \in {"store", "ucfs"} -> (o.has /\ ~in.err) => o.ctx = in.ctx
@@ -38,13 +35,15 @@ ElemOk(E, pol, n, in, o) ==
            LET out == OutOf(E, pol, n, in) IN
            IF out.err
            THEN /\ ~o.ok /\ o.exc = "LenaKeyError"
-                /\ \/ out.key \in Range(o.words)
-                   \/ Range(o.words) \cap FieldKeys(E, n) # {}
+                \* names a key that is unresolvable below n (if several are, the statement does
+                \* not say which; a key that is resolved there does not count)
+                /\ Range(o.words) \cap Unresolved(E, pol, n, in) # {}
            ELSE o.ok /\ o.ctx = out.ctx
     [] OTHER -> TRUE
 
 RunOk(E, pol, w, r) ==
   /\ r.ran
+  /\ r.stable      \* running the pipeline changed nothing the elements hold
   /\ (\A j \in 1..Len(E) : E[j].k # "ucfs") =>
         \A j \in 1..Len(r.rt) : DOMAIN r.rt[j].m \subseteq {"output", "rt"}
   /\ (r.rtx /\ ~OutOf(E, pol, Len(E), Cur(Empty)).err) =>
